@@ -167,6 +167,7 @@ type childR struct{ *compChild }
 func (c childR) Reload(context.Context) { c.rec.add("RL%d", c.idx) }
 
 type compResult struct {
+	stream string
 	events []string
 	hung   bool
 	live   int
@@ -241,6 +242,7 @@ func runCompScenario(sc CompScenario) compResult {
 		}
 		time.Sleep(3 * time.Millisecond) // let Run react while the reload is parked here
 	}})
+	watch := watchStates(runner.GetStateChan, time.Duration(len(sc.Ops)*3)*time.Millisecond)
 	runDone := make(chan struct{})
 	go func() {
 		rec.add("RUN")
@@ -388,6 +390,29 @@ func runCompScenario(sc CompScenario) compResult {
 	res.live = int(live.Load())
 	res.final = runner.GetState()
 	res.events, _ = rec.snapshot()
+	ret := ""
+	for _, e := range res.events {
+		if strings.HasPrefix(e, "RET:") {
+			f := strings.Split(e, ":")
+			cls := "err"
+			if f[1] == "nil" {
+				cls = "nil"
+			}
+			ret = cls + ":" + f[2]
+		}
+	}
+	// "single Run, nothing else in flight when it returned": sequential histories in which no Reload follows the return
+	single := sc.Sequential && sc.YieldOp == ""
+	seenRet := false
+	for _, e := range res.events {
+		if strings.HasPrefix(e, "RET:") {
+			seenRet = true
+		}
+		if seenRet && strings.HasPrefix(e, "LC") {
+			single = false
+		}
+	}
+	res.stream = streamLine(watch, ret, single)
 	close(teardown)
 	compositeYield.Store(nil)
 	return res
@@ -576,6 +601,9 @@ func runComposite(o Opts) {
 			e.Case(c+" "+h+" "+ev, "true")
 		}
 		e.Case("compseq "+h+" "+ev, "agree")
+		if r.stream != "" && !r.hung {
+			e.Case(r.stream+" scn~"+encComp(j.sc), "true")
+		}
 		if strings.Contains(ev, "LC") || strings.Contains(ev, "FX") {
 			e.Nontrivial(h[:strings.Index(h, " scn~")] + " " + ev)
 		}
